@@ -132,6 +132,10 @@ def run_script(exe, work, idx, edge, creds=None, writecap=0):
     env = dict(os.environ, ASAN_OPTIONS="detect_leaks=1:abort_on_error=0", UBSAN_OPTIONS="print_stacktrace=1:halt_on_error=0")
     if writecap:
         env["PAMDRV_WRITECAP"] = str(writecap)
+    prompt_ms = 0
+    if creds is None and mode == "conv" and idx % 4 == 1:   # the conversation takes longer than the socket timeout
+        prompt_ms = TIMEOUT_S * 1000 + 500
+        env["PAMDRV_PROMPT_DELAY_MS"] = str(prompt_ms)
     t0 = time.time()
     try:
         p = subprocess.run(argv, stdout=subprocess.PIPE, stderr=subprocess.PIPE, timeout=9, env=env)
@@ -147,7 +151,7 @@ def run_script(exe, work, idx, edge, creds=None, writecap=0):
     m = re.search(r"RC (\d+) MS (\d+)", out)
     return {"idx": idx, "edge": edge, "hung": hung, "rc": int(m.group(1)) if m else None, "ms": int(m.group(2)) if m else None,
             "wall": wall, "stderr": err[-1500:], "exit": rc, "request": bytes(got), "accepted": state["accepted"],
-            "want_request": expected_request(user, pw), "creds": (len(user), len(pw)), "opts": opts}
+            "want_request": expected_request(user, pw), "creds": (len(user), len(pw)), "opts": opts, "prompt_ms": prompt_ms}
 
 
 def judge(ctx, results, prop="C20"):
@@ -158,6 +162,8 @@ def judge(ctx, results, prop="C20"):
         n += 1
         if r["hung"]:
             key = "no-termination:stale-errno-eintr" if s["staleErrno"] and s["after"] == "close" else "no-termination:" + tag
+            if r.get("prompt_ms"):
+                key = "no-termination:slow-conversation"
             ctx.violation(prop, key, "pam_sm_authenticate did not return within 9 s (script %s, errno on entry %s)" % (tag, "EINTR" if s["staleErrno"] else 0))
             continue
         if r["exit"] == -13:
@@ -174,7 +180,7 @@ def judge(ctx, results, prop="C20"):
         if success != r["edge"]["success"]:
             ctx.violation(prop, "success=%s:%s" % (success, tag), "model success=%s, module returned %d after %d ms (user/pw lengths %s, options %s)" % (
                 r["edge"]["success"], r["rc"], r["ms"], r["creds"], r["opts"]))
-        if r["ms"] > 4500:
+        if r["ms"] - r.get("prompt_ms", 0) > 4500:
             ctx.violation(prop, "too-slow:" + tag, "%d ms with timeout=%d" % (r["ms"], TIMEOUT_S))
         if s["reachable"] and r["accepted"] and s.get("reads", True) and not (s["delay"] == "none" and s["after"] == "close" and s["cut"] > 0):
             # the request is complete whenever the server kept reading (it may stop early once it has answered and closed)
